@@ -110,7 +110,7 @@ def plan(tier, seed):
     for store in STORES:
         for a, b in itertools.product(range(NALPHA), repeat=2):
             specs.append({"kind": "exh", "store": store, "prefix": [a, b], "depth": depth})
-    nrand, per = (360, 10) if tier == "quick" else (2400, 40)
+    nrand, per = (360, 10) if tier == "quick" else (12000, 40)
     for r in range(nrand):
         specs.append({"kind": "rand", "store": STORES[r % 3], "n": per, "len": 20})
     # interleave so that every worker sees all kinds early (soft budget cuts the tail, not a kind)
